@@ -250,7 +250,7 @@ func init() {
 			"piecewise-boundary values, 10^6x and 2^64 outliers, unready aggregators, aligned and unaligned epochs; " +
 			"non-trivial = the real code returned a value (not an error, nil or panic); distinct = distinct op line",
 		Corpus: [][]string{
-			{"consts", "batch 0", "batch 1707", "batch 81029", "batch 81030", "batch 101469", "batch 101470",
+			{"consts", "horizon", "batch 0", "batch 1707", "batch 81029", "batch 81030", "batch 101469", "batch 101470",
 				"batch 3650365", "multi 1706 1707", "multi 5 5", "multi 81028 81030", "pool 0", "pool 1706", "pool 365",
 				"pool 80665", "pool 81031"},
 		},
@@ -358,6 +358,15 @@ func execMint(_ *State, line string) Result {
 			}
 			return fmt.Sprintf("ok %s %s %d %d %d %d", pool, pct, kernel.MintYearDays, kernel.KernelNetworkLegacyEnding,
 				config.KernelMintTimeBegin, config.KernelMintTimeEnd)
+		case "horizon":
+			// first year whose daily amount is zero or whose computation panics, on the real code
+			for y := uint64(0); ; y++ {
+				v, pn, _ := Catch(func() string { return integerToBig(kernel.VerifMintBatchSize(y * kernel.MintYearDays)).String() })
+				if pn || v == "0" {
+					res.Tags = append(res.Tags, fmt.Sprintf("horizon:year%d", y))
+					return fmt.Sprintf("ok %d", y)
+				}
+			}
 		case "batch":
 			b := u64(t[1])
 			v := integerToBig(kernel.VerifMintBatchSize(b))
